@@ -4,6 +4,7 @@ import (
 	"encoding/json"
 	"fmt"
 	"net/http"
+	"regexp"
 	"strconv"
 	"strings"
 	"sync"
@@ -20,6 +21,7 @@ import (
 	"github.com/google/martian/v3/martianhttp"
 	_ "github.com/google/martian/v3/martianurl"
 	_ "github.com/google/martian/v3/method"
+	_ "github.com/google/martian/v3/port"
 	"github.com/google/martian/v3/parse"
 	_ "github.com/google/martian/v3/priority"
 	_ "github.com/google/martian/v3/querystring"
@@ -118,6 +120,13 @@ func (n *cnode) applies(phase string) bool {
 
 func (n *cnode) cond(phase string, m *cmsg) bool {
 	switch n.FKind {
+	case "port":
+		// the exchanges' URLs name no port: http, so 80
+		return n.FVal == "80"
+	case "header_regex":
+		// documented to look at the REQUEST's header in both phases
+		ok, _ := regexp.MatchString(n.FVal, m.reqCond)
+		return m.reqCond != "" && ok
 	case "url_host":
 		return m.host == n.FVal
 	case "url_query":
@@ -237,6 +246,10 @@ func (n *cnode) JSON() string {
 			name, params = "method.Filter", fmt.Sprintf(`"method":%q`, n.FVal)
 		case "cookie":
 			name, params = "cookie.Filter", fmt.Sprintf(`"name":"ck","value":%q`, n.FVal)
+		case "port":
+			name, params = "port.Filter", fmt.Sprintf(`"port":%s`, n.FVal)
+		case "header_regex":
+			name, params = "header.RegexFilter", fmt.Sprintf(`"header":"X-Cond","regex":%q`, n.FVal)
 		}
 		els := ""
 		if n.Else != nil {
@@ -280,8 +293,12 @@ func genTree(k *kernel.K, depth int, nextID *int) *cnode {
 			n.Prio = append(n.Prio, int64(w.Draw(3)))
 		}
 	case "filter":
-		n.FKind = []string{"url_host", "url_query", "header", "querystring", "method", "cookie"}[w.Draw(6)]
+		n.FKind = []string{"url_host", "url_query", "header", "querystring", "method", "cookie", "port", "header_regex"}[w.Draw(8)]
 		switch n.FKind {
+		case "port":
+			n.FVal = []string{"80", "8080"}[w.Draw(2)]
+		case "header_regex":
+			n.FVal = []string{"^a$", "^[bc]$"}[w.Draw(2)]
 		case "url_host":
 			n.FVal = []string{"origin-a.test", "other.test"}[w.Draw(2)]
 		case "url_query":
